@@ -3,6 +3,7 @@
 from __future__ import annotations
 
 import itertools
+import os
 import resource
 import sys
 
@@ -136,6 +137,44 @@ def classify(data: bytes):
 
 
 CHANNELS_CREATED: list = []
+
+
+DEEP_SHAPES = ("tuple", "list", "set1", "set2", "dictkey", "dictkey2", "frozenset-nest", "tuple-in-frozenset")
+DEEP_CELL = r'''
+import sys, struct
+sys.path.insert(0, "/repo/src")
+import execnet
+assert execnet.__file__.startswith("/repo/src")
+i4 = lambda n: struct.pack("!i", n)
+def deep_tuple(n):
+    return b"@" + i4(0) + (b"@" + i4(1)) * n
+def deep_list(n):
+    # K n items... a list holding a list: NEWLIST 1, index 0, <inner>, SETITEM  (built outside-in)
+    return (b"K" + i4(1) + b"F" + i4(0)) * n + b"L" + b"P" * n
+def deep_frozenset(n):
+    return b"E" + i4(0) + (b"E" + i4(1)) * n
+for n in eval(sys.argv[1]):
+    shapes = {
+        "tuple": deep_tuple(n),
+        "list": deep_list(n),
+        "set1": deep_tuple(n) + b"O" + i4(1),
+        "set2": deep_tuple(n) * 2 + b"O" + i4(2),
+        "dictkey": b"J" + deep_tuple(n) + b"L" + b"P",
+        "dictkey2": b"J" + deep_tuple(n) + b"L" + b"P" + deep_tuple(n) + b"L" + b"P",
+        "frozenset-nest": deep_frozenset(n),
+        "tuple-in-frozenset": deep_tuple(n) + b"E" + i4(1) + b"@" + i4(1) + b"E" + i4(1),
+    }
+    for name, body in shapes.items():
+        try:
+            v = execnet.loads(b"\x02" + body + b"Q")
+            r = "value"
+            del v
+        except execnet.DataFormatError:
+            r = "DataFormatError"
+        except BaseException as e:
+            r = type(e).__name__
+        print(n, name, r, flush=True)
+'''
 
 
 def _limit_memory():
@@ -278,6 +317,25 @@ def run(tier: str, only=None) -> int:
     before = total
     merge(res)
     rep.add_enumeration("payload-size-classes", total - before, total - before, {"sizes": sizes})
+    # nesting-depth classes: hashing / comparing deeply nested tuples recurses in C (RecursionError,
+    # or a crashed interpreter): run in a child process so that a crash is an observation, not our end
+    import subprocess
+    import sys as _sys
+
+    depths = [1, 10, 255, 256, 257, 1000, 2000, 5000, 50000, 200000] + ([1000000] if tier != "quick" else [])
+    r = subprocess.run([_sys.executable, "-c", DEEP_CELL, repr(depths)], capture_output=True, text=True, timeout=600, env=dict(os.environ, PYTHONPATH="/repo/src"))
+    seen_cells = set()
+    for line in r.stdout.splitlines():
+        parts = line.split()
+        if len(parts) == 3:
+            seen_cells.add((int(parts[0]), parts[1]))
+            if parts[2] not in ("value", "DataFormatError", "EOFError"):
+                rep.violation("c13:deep-nesting-untyped", f"loads() of a {parts[1]} shape nested {parts[0]} deep raised {parts[2]}", {"check": PID, "sub": "deep", "depth": int(parts[0]), "shape": parts[1]})
+    want_cells = {(d, s) for d in depths for s in DEEP_SHAPES}
+    if r.returncode != 0 or seen_cells != want_cells:
+        missing = sorted(want_cells - seen_cells)[:3]
+        rep.violation("c13:deep-nesting-crash", f"the interpreter did not survive loads() of deeply nested input: exit status {r.returncode}, first shapes without a result: {missing}; stderr tail: {r.stderr[-200:]}", {"check": PID, "sub": "deep", "returncode": r.returncode})
+    rep.add_enumeration("nesting-depth-classes", len(want_cells), len(want_cells), {"depths": depths, "shapes": list(DEEP_SHAPES)})
     # no strict prefix of a valid dump may load successfully
     import execnet
 
